@@ -147,7 +147,7 @@ type Effect struct {
 	Assert    *Fact  // holds afterwards on every continuing path
 	CopyFrom  string // facts of subject CopyFrom also hold for CopyTo
 	CopyTo    string
-	DropMarks bool // mark facts are not copied (Unmark results)
+	DropMarks bool  // mark facts are not copied (Unmark results)
 	Keep      *Fact // this fact, if it held before the node, survives the node's assignment kill
 }
 
